@@ -10,6 +10,14 @@ use serde_json::Value as J;
 type N8 = U1048576; // x u64 = 8 MiB
 type N4 = U524288; // x u64 = 4 MiB
 
+#[derive(Clone)]
+struct Big16k([u64; 2048]);
+impl Default for Big16k {
+    fn default() -> Self {
+        Big16k([0; 2048])
+    }
+}
+
 fn summarize(op: &str, s: &[u64], bytes: usize) {
     let n = s.len();
     let first = s.first().copied().unwrap_or(0);
@@ -51,6 +59,18 @@ fn build(op: String) {
             let b = Box::<GenericArray<u64, N4>>::generate(|i| (i % 1000) as u64);
             let v = b.clone().into_vec();
             summarize(&op, &v, v.len() * 8);
+        }
+        // few, very large elements: 256 x 16 KiB = 4 MiB
+        "generate_bigelem" => {
+            let b = Box::<GenericArray<[u64; 2048], generic_array::typenum::U256>>::generate(|i| [(i % 1000) as u64; 2048]);
+            let flat: Vec<u64> = b.iter().map(|e| e[2047]).collect();
+            summarize(&op, &flat, std::mem::size_of_val(&*b));
+        }
+        "default_boxed_bigelem" => {
+            let b = GenericArray::<[u64; 32], generic_array::typenum::U192>::default_boxed();
+            let b2 = GenericArray::<Big16k, generic_array::typenum::U192>::default_boxed();
+            let flat: Vec<u64> = b.iter().map(|e| e[31]).chain(b2.iter().map(|e| e.0[2047])).collect();
+            summarize(&op, &flat, std::mem::size_of_val(&*b) + std::mem::size_of_val(&*b2));
         }
         _ => panic!("HARNESS: big op {}", op),
     }
